@@ -90,6 +90,10 @@ class C17(Check):
                     'eventually[0,1e400](xa >= 1)', 'once[0,1e300](xa >= 1)']:
             for kind in KINDS:
                 cases.append({'f': P, 'n': 3, 'nv': 1, 'cols': fml.gen_trace(rng, 2, 3), 'times': [0, 1, 2], 'shape': 'huge-bound', 'kind': kind, 'perm': 0.5, 'text': txt})
+        # assertion heads that end with a dot (one Identifier token): declared under one name, looked up under another
+        for full in ['a. = (xa >= 1)', 'xb. = once(xa >= 1)']:
+            for kind in KINDS:
+                cases.append({'f': P, 'n': 3, 'nv': 1, 'cols': fml.gen_trace(rng, 2, 3), 'times': [0, 1, 2], 'shape': 'huge-bound', 'kind': kind, 'perm': 0.5, 'text': full, 'full': 1})
         return cases
 
     def normalize(self, c):
@@ -130,7 +134,7 @@ class C17(Check):
         if past:
             base['pastify'] = True
         if shape == 'huge-bound':
-            base['spec'] = 'out = ' + c['text']
+            base['spec'] = c['text'] if c.get('full') else 'out = ' + c['text']
             base['pastify'] = kind.endswith('online') and ('always' in c['text'] or 'eventually' in c['text'])
         if shape in ('object-fields', 'object-fields-same'):
             import re
